@@ -175,10 +175,18 @@ def two_combines_fn(g):
     e = TaskSpec("e", "run_experiment", [c1.ident], pkg=epkg)
     c2 = TaskSpec("c2", "combine", [d1.ident, e.ident] if g.flag("d1_first") else [e.ident, d1.ident], pkg=pkg)
     specs = [d1, d2, c1, e, c2]
+    # outputs of the package kept on another disk: its directory below cond-out is a symbolic link (all five tasks in that package)
+    linked = g.flag("package_output_directory_is_a_symbolic_link") if (pkg and epkg == pkg) else False
     proj = hrun.Project()
     try:
         proj.write_tasks(specs)
-        D = "d1,d2 in //%s; c1=combine(d1,d2); e in //%s depends on c1; c2=combine(%s); %d run(s)" % (pkg, epkg, c2.deps, runs)
+        if linked:
+            top = pkg.split("/")[0]
+            (proj.root / "scratch disk" / "deep" / ("outputs of " + top)).mkdir(parents=True)
+            proj.out.mkdir(exist_ok=True)
+            os.symlink(str(proj.root / "scratch disk" / "deep" / ("outputs of " + top)), str(proj.out / top))
+        D = "d1,d2 in //%s; c1=combine(d1,d2); e in //%s depends on c1; c2=combine(%s); %d run(s)%s" % (
+            pkg, epkg, c2.deps, runs, "; cond-out/%s is a symbolic link" % pkg.split("/")[0] if linked else "")
         for r in range(runs):
             kern = fakeos.Kernel(graphs.SymSched(g, all_ok=True, on_spawn=graphs.output_writer), clock=fakeos.Clock(lambda i, r=r: 1000.0 + 10 * r))
             res = hrun.invoke(cli_run.main, hrun.run_ns(task_identifier=c2.ident, again=(r >= 1)), str(proj.root), kern, timeout=60)
